@@ -25,6 +25,8 @@ struct TaskInfo {
     deps: Vec<Tid>,
     n_nodes: u32,
     known_spec: bool,
+    /// the time limit the client asked for (None = no limit)
+    time_limit_s: Option<u64>,
     /// submitted when one of its (transitive) dependencies had already failed / been canceled
     late_dependent: bool,
 }
@@ -203,6 +205,26 @@ impl Monitors {
                     stops_this_step.insert(*exec);
                     if *timeout {
                         self.count("exec.timeout", 1);
+                        // stopped for its time limit: only a task that has one, and not before it elapsed
+                        let (t, start_s, vnow) = {
+                            let sh = sim.shared.borrow();
+                            (sh.execs[*exec].t, sh.execs[*exec].start_s, sh.vnow_s)
+                        };
+                        if let Some(info) = self.tasks.get(&t).filter(|i| i.known_spec) {
+                            let early = match info.time_limit_s {
+                                None => true,
+                                Some(l) => vnow < start_s + l,
+                            };
+                            if early {
+                                viol(
+                                    out,
+                                    step,
+                                    "C01",
+                                    "R5-stopped-for-a-time-limit-it-does-not-have",
+                                    format!("task {t:?} (submitted with time limit {:?}s, started at {start_s}s) was stopped for its time limit at {vnow}s", info.time_limit_s),
+                                );
+                            }
+                        }
                     } else {
                         self.count("exec.cancel_signal", 1);
                     }
@@ -357,12 +379,23 @@ impl Monitors {
 
         // ---- C01-R5: time limit (virtual time)
         {
+            let mut mismatches = 0u64;
             let sh = sim.shared.borrow();
             for (i, e) in sh.execs.iter().enumerate() {
                 if !e.open || e.incarnation != sh.incarnation {
                     continue;
                 }
-                if let Some(l) = e.time_limit_s {
+                // the limit the CLIENT asked for (the limit that reached the worker inside the
+                // ComputeTasks message is only what the worker was told)
+                let asked = self.tasks.get(&e.t).filter(|i| i.known_spec).map(|i| i.time_limit_s);
+                if let Some(asked) = asked {
+                    if asked != e.time_limit_s {
+                        // (a precursor only: it becomes a violation when the task outlives its
+                        // limit or is stopped too early - both judged against what was asked)
+                        mismatches += 1;
+                    }
+                }
+                if let Some(l) = asked.unwrap_or(e.time_limit_s) {
                     if sh.vnow_s >= e.start_s + l && e.stopped.is_none() {
                         viol(
                             out,
@@ -377,6 +410,8 @@ impl Monitors {
                     }
                 }
             }
+            drop(sh);
+            self.count("exec.open_with_other_time_limit_than_asked", mismatches);
         }
 
         // ---- C08-K2 / C14-M3: open executions get Cancel when the worker processes CancelTasks
@@ -1341,7 +1376,7 @@ impl Monitors {
                 }
                 // register specs
                 match spec {
-                    SubmitSpec::Array { req, .. } => {
+                    SubmitSpec::Array { req, attrs, .. } => {
                         for id in &new {
                             self.tasks.insert(
                                 (j, *id),
@@ -1349,6 +1384,7 @@ impl Monitors {
                                     deps: vec![],
                                     n_nodes: req.variants[0].n_nodes,
                                     known_spec: true,
+                                    time_limit_s: attrs.time_limit_s,
                                     late_dependent: false,
                                 },
                             );
@@ -1362,6 +1398,7 @@ impl Monitors {
                                     deps: t.deps.iter().map(|d| (j, *d)).collect(),
                                     n_nodes: reqs[t.req].variants[0].n_nodes,
                                     known_spec: true,
+                                    time_limit_s: t.attrs.time_limit_s,
                                     late_dependent: false,
                                 },
                             );
